@@ -7,19 +7,19 @@ import XsdataModel.Proofs.C01NTypes
 namespace Proofs.C01
 open Py Xs.Bind Xs.Bind.F1 Xs.Bind.FN
 
-theorem treeNN_obj (Γ : Ctx) (cfg : SerCfg) (M : NsMap) (n : Nat) (pns : Option Str) (nl : Bool)
+theorem treeNN_obj (Γ : Ctx) (cfg : SerCfg) (M : NsMap) (n : Nat) (pns : Option Str)
     (xt : Option QN)
     (q : QN) (c : ClassId) (fields : List (Str × Val)) {m : XmlMeta} (hm : metaOf Γ c pns = some m) :
-    treeNN Γ cfg M (n + 1) pns nl xt q (.obj c fields) =
+    treeNN Γ cfg M (n + 1) pns xt q (.obj c fields) =
       match m.text with
       | some tv =>
         .node q (if textHasData (look fields tv.name) then attrPairsT cfg M m.attributeVars fields xt
-                 else attrPairsT cfg M m.attributeVars fields xt ++ nilAttr (nl || m.nillable)) M
+                 else attrPairsT cfg M m.attributeVars fields xt ++ nilAttr m.nillable) M
           (textTextN (look fields tv.name)) [] none
       | none =>
         .node q
           (if (kidsN M (itemRec Γ cfg M n (targetUri m.qname)) m fields).isEmpty
-           then attrPairsT cfg M m.attributeVars fields xt ++ nilAttr (nl || m.nillable)
+           then attrPairsT cfg M m.attributeVars fields xt ++ nilAttr m.nillable
            else attrPairsT cfg M m.attributeVars fields xt) M none
           (kidsN M (itemRec Γ cfg M n (targetUri m.qname)) m fields) none := by
   simp only [treeNN, hm]
@@ -198,13 +198,13 @@ theorem genField_textN (e : BEnv) (Γ : Ctx) (cfg : SerCfg) (f : Nat) (ns : Opti
 theorem main_stepN (ft : Feat) (e : BEnv) (Γ : Ctx) (cfg : SerCfg) (pcfg : ParserConfig) (M : NsMap)
     (hΓ : ctxOK ft Γ = true) (n : Nat) (IH : MainStmtN ft e Γ cfg pcfg M n) :
     MainStmtN ft e Γ cfg pcfg M (n + 1) := by
-  intro v c pnsG pnsP oq q fuel mg mp nl xt hmg hmp hdq hq hns hval hfuel
+  intro v c pnsP oq q fuel mp xt hmp hq hval hfuel
   cases v with
   | obj cls fields =>
     obtain ⟨ci, hfind, hmf⟩ : ∃ ci, Γ.find c = some ci ∧ ci.metaFor pnsP = some mp := by
       simpa [metaOf, Option.bind_eq_some_iff] using hmp
     simp only [FN.valObjN, hfind, hmf, Bool.and_eq_true, decide_eq_true_eq, List.all_eq_true] at hval
-    obtain ⟨⟨hcls, hxtok⟩, ⟨⟨hnames, hxtmap⟩, hattrs⟩, hbody⟩ := hval
+    obtain ⟨⟨hcls, hxtok⟩, ⟨hnames, hattrs⟩, hbody⟩ := hval
     subst hcls
     obtain ⟨MF, _⟩ := ctx_metaFactsN hΓ hfind hmf
     obtain ⟨hAnames, hEnames, hAE⟩ := nodup_append_names MF.nameNodup
@@ -234,33 +234,26 @@ theorem main_stepN (ft : Feat) (e : BEnv) (Γ : Ctx) (cfg : SerCfg) (pcfg : Pars
     have hxtI : ∀ t, xt = some t → ft.inherit = true ∧ typeNameOK e t = true := by
       intro t ht
       simpa [ht] using hxtok
-    have hxtAny : ∀ kv ∈ typeAttr M xt, mp.findAttribute kv.1 = none ∧ mp.findAnyAttributes kv.1 = none ∧
-        targetUri kv.1 = some xsiNs := by
+    have hxtAny : ∀ kv ∈ typeAttr M xt, mp.findAttribute kv.1 = none ∧ (kv.1 = xsiType ∨ kv.1 = xsiNil) := by
       intro kv hkv
       rw [typeAttr_keys kv hkv]
       cases hx : xt with
       | none => simp [hx, typeAttr] at hkv
-      | some t =>
-        have hany : mp.anyAttributes = [] := by simpa [hx] using hxtmap
-        exact ⟨MF.noTypeAttr (hxtI t hx).1, by simp [XmlMeta.findAnyAttributes, hany, findByNamespace],
-          by decide⟩
-    have hBindA : ∀ nil, (nil = true → mp.anyAttributes = []) →
+      | some t => exact ⟨MF.noTypeAttr (hxtI t hx).1, Or.inl rfl⟩
+    have hBindA : ∀ nil,
         bindAttrs e pcfg mp (attrPairsT cfg M mp.attributeVars fields xt ++ nilAttr nil) M =
           .ok (attrParamsN cfg mp.attributeVars fields, 0) := by
-      intro nil hany
+      intro nil
       have := bindAttrs_NX pcfg cfg mp fields M (typeAttr M xt ++ nilAttr nil) hAF hAnames (by
         intro kv hkv
         rcases List.mem_append.1 hkv with h | h
         · exact hxtAny kv h
         · rw [nilAttr_keys kv h]
-          cases nil with
-          | false => simp [nilAttr] at h
-          | true =>
-            exact ⟨MF.noNilAttr, by simp [XmlMeta.findAnyAttributes, hany rfl, findByNamespace], by decide⟩)
+          exact ⟨MF.noNilAttr, Or.inr rfl⟩)
       simpa [attrPairsT, List.append_assoc] using this
     -- under the hypothesis on the prefix map the parser reads the `xsi:type` back
     have hXT : ∀ (X : List Ev) (b : Bool),
-        TypesGood e M ([Ev.start q] ++ (attrEvsT cfg mp.attributeVars fields xt ++ nilEvs (nl || mp.nillable)) ++
+        TypesGood e M ([Ev.start q] ++ (attrEvsT cfg mp.attributeVars fields xt ++ nilEvs mp.nillable) ++
           X ++ [Ev.end q]) →
         xsiTypeOf e (attrPairsT cfg M mp.attributeVars fields xt ++ nilAttr b) M = .ok xt := by
       intro X b hgood
@@ -279,7 +272,7 @@ theorem main_stepN (ft : Feat) (e : BEnv) (Γ : Ctx) (cfg : SerCfg) (pcfg : Pars
           | nil => exact absurd rfl (typeNameOK_ne_nil hok)
           | cons _ _ => rfl
         have hmem : Ev.attr xsiType (.prim (.qname t)) ∈ [Ev.start q] ++
-            (attrEvsT cfg mp.attributeVars fields xt ++ nilEvs (nl || mp.nillable)) ++ X ++ [Ev.end q] := by
+            (attrEvsT cfg mp.attributeVars fields xt ++ nilEvs mp.nillable) ++ X ++ [Ev.end q] := by
           simp [attrEvsT, typeEvs, hx, hne]
         have := hgood t hmem hok
         have hfind : (attrPairsT cfg M mp.attributeVars fields (some t) ++ nilAttr b).find?
@@ -291,53 +284,29 @@ theorem main_stepN (ft : Feat) (e : BEnv) (Γ : Ctx) (cfg : SerCfg) (pcfg : Pars
         simp only [xsiTypeOf, hfind] at this ⊢
         simpa using this
     have hXT0 : ∀ (X : List Ev),
-        TypesGood e M ([Ev.start q] ++ (attrEvsT cfg mp.attributeVars fields xt ++ nilEvs (nl || mp.nillable)) ++
+        TypesGood e M ([Ev.start q] ++ (attrEvsT cfg mp.attributeVars fields xt ++ nilEvs mp.nillable) ++
           X ++ [Ev.end q]) →
         xsiTypeOf e (attrPairsT cfg M mp.attributeVars fields xt) M = .ok xt := by
       intro X hgood
       simpa [nilAttr] using hXT X false hgood
     -- the generator up to the element content
-    have hnilG : mg.nillable = mp.nillable := by
-      show (dropQ mg).nillable = (dropQ mp).nillable
-      rw [hdq]
-    have hGA : nextAttribute cfg mg fields (nl || mg.nillable) xt =
-        .ok (attrEvsT cfg mp.attributeVars fields xt ++ nilEvs (nl || mp.nillable)) := by
-      rw [← nextAttribute_dropQ, hdq, nextAttribute_dropQ, hnilG]
-      exact nextAttribute_N cfg mp fields _ xt hAF
-    have hNV : nextValue mg fields = nextValue mp fields := by
-      rw [← nextValue_dropQ, hdq, nextValue_dropQ]
-    rw [genObj_unfoldN e Γ cfg f cls fields pnsG oq mg nl hmg xt, hq, hGA, hNV,
-      treeNN_obj Γ cfg M n pnsP nl xt q cls fields hmp]
+    have hGA : nextAttribute cfg mp fields (false || mp.nillable) xt =
+        .ok (attrEvsT cfg mp.attributeVars fields xt ++ nilEvs mp.nillable) :=
+      nextAttribute_N cfg mp fields _ xt hAF
+    rw [genObj_unfoldN e Γ cfg f cls fields pnsP oq mp false hmp xt, hq, hGA,
+      treeNN_obj Γ cfg M n pnsP xt q cls fields hmp]
     have hfactoryA : ∀ (P : Params), (∀ var ∈ mp.attributeVars,
           P.get var.name = (attrParamOf cfg fields var).map (·.2)) →
         ∀ fi ∈ ci.fields, ∀ var ∈ mp.attributeVars, var.name = fi.name → FieldOK P fields fi :=
       fun P hP fi hfi var hv hname =>
         attr_field_okN cfg (MF.attrs var hv) (hattrs var hv) MF.fieldNodup hfi hname (hP var hv)
     have hclazz : mp.clazz = cls := by rw [MF.clazz]; exact find_id hfind
-    -- without content the element may be `xsi:nil`: then the class is nillable and has no map
-    have hneed : needContent nl mp = false → (nl || mp.nillable) = true →
-        mp.nillable = true ∧ mp.anyAttributes = [] := by
-      intro hn hN
-      simp only [needContent, Bool.or_eq_false_iff, Bool.and_eq_false_iff, Bool.not_eq_false',
-        Bool.not_eq_eq_eq_not, Bool.not_true, Bool.or_eq_true] at hn hN
-      obtain ⟨h1, h2⟩ := hn
-      constructor
-      · rcases hN with h | h
-        · rcases h1 with h1 | h1
-          · rw [h] at h1; cases h1
-          · exact h1
-        · exact h
-      · rcases h2 with h2 | h2
-        · rcases hN with h | h
-          · rw [h] at h2; simp at h2
-          · rw [h] at h2; simp at h2
-        · simpa using h2
     have hPA := attrParamsN_get cfg fields mp.attributeVars hAnames
     cases htext : mp.text with
     | some tv =>
       dsimp only
-      simp only [htext, Bool.and_eq_true] at hbody
-      obtain ⟨hTX, hcontent⟩ := hbody
+      simp only [htext] at hbody
+      have hTX := hbody
       obtain ⟨hEV, hTV⟩ : mp.elementVars = [tv] ∧ FN.textVarOK ft ci tv = true := by
         simpa [htext] using MF.body
       simp only [FN.textVarOK, FN.varBase, Bool.and_eq_true, Bool.not_eq_true',
@@ -385,7 +354,7 @@ theorem main_stepN (ft : Feat) (e : BEnv) (Γ : Ctx) (cfg : SerCfg) (pcfg : Pars
               hAkeys false
           have hBindA0 : bindAttrs e pcfg mp (attrPairsT cfg M mp.attributeVars fields xt) M =
               .ok (attrParamsN cfg mp.attributeVars fields, 0) := by
-            simpa [nilAttr] using hBindA false (fun h => by cases h)
+            simpa [nilAttr] using hBindA false
           have hF : classFactory Γ mp.clazz (attrParamsN cfg mp.attributeVars fields) = .ok (.obj cls fields) := by
             rw [hclazz]
             apply classFactory_N Γ hfind fields _ hnames MF.fieldNodup
@@ -398,7 +367,7 @@ theorem main_stepN (ft : Feat) (e : BEnv) (Γ : Ctx) (cfg : SerCfg) (pcfg : Pars
               rw [hdef] at hd'
               exact Or.inr ⟨by rw [hi', hinit], by rw [← hname, hlook, defaultAgrees_val hd']⟩
           obtain ⟨f', rfl⟩ : ∃ f', f = f' + 1 := ⟨f - 1, by omega⟩
-          have hgen := genField_textN e Γ cfg f' (targetUri q) hmixed hisText hwrap
+          have hgen := genField_textN e Γ cfg f' (targetUri mp.qname) hmixed hisText hwrap
             (encodePrimitive_prim hpt')
           have hT : ∃ bt, bindText e pcfg mp (xsiNilOf (attrPairsT cfg M mp.attributeVars fields xt)) M
               (bindEntries (attrParamsN cfg mp.attributeVars fields) []) (optText (serPrim p)) =
@@ -414,10 +383,10 @@ theorem main_stepN (ft : Feat) (e : BEnv) (Γ : Ctx) (cfg : SerCfg) (pcfg : Pars
             MF.choices MF.wild (fun h => by rw [hxnA] at h; cases h) hK (fun _ h => by cases h)
             hWs0 hBindA0 hT hF
           have hsubw := SubW_elem_dataN (M := M) (isDt := isDatatype Γ) q
-            (attrEvsT cfg mp.attributeVars fields xt ++ nilEvs (nl || mp.nillable))
-            (attrPairsT cfg M mp.attributeVars fields xt) (nl || mp.nillable) (.prim (.str (serPrim p)))
+            (attrEvsT cfg mp.attributeVars fields xt ++ nilEvs mp.nillable)
+            (attrPairsT cfg M mp.attributeVars fields xt) mp.nillable (.prim (.str (serPrim p)))
             (some (serPrim p)) rfl (hAW _) hAkeys
-          refine ⟨[Ev.start q] ++ (attrEvsT cfg mp.attributeVars fields xt ++ nilEvs (nl || mp.nillable)) ++
+          refine ⟨[Ev.start q] ++ (attrEvsT cfg mp.attributeVars fields xt ++ nilEvs mp.nillable) ++
               [Ev.data (.prim (.str (serPrim p)))] ++ [Ev.end q],
             attrPairsT cfg M mp.attributeVars fields xt, optText (serPrim p), [], ?_, ?_, ?_, ?_,
             Or.inl hxnA, fun hgood => ⟨hXT0 _ hgood, ?_⟩⟩
@@ -467,7 +436,7 @@ theorem main_stepN (ft : Feat) (e : BEnv) (Γ : Ctx) (cfg : SerCfg) (pcfg : Pars
             hAkeys false
         have hBindA0 : bindAttrs e pcfg mp (attrPairsT cfg M mp.attributeVars fields xt) M =
             .ok (attrParamsN cfg mp.attributeVars fields, 0) := by
-          simpa [nilAttr] using hBindA false (fun h => by cases h)
+          simpa [nilAttr] using hBindA false
         -- the typed text value
         unfold FN.textValOK at hTX
         rw [Bool.and_eq_true] at hTX
@@ -482,9 +451,9 @@ theorem main_stepN (ft : Feat) (e : BEnv) (Γ : Ctx) (cfg : SerCfg) (pcfg : Pars
           · -- a token list
             simp only [htok, if_true, Bool.and_eq_true, Bool.or_eq_true, Bool.not_eq_true',
               decide_eq_true_eq] at hTX hkind
-            obtain ⟨ys, hlook, hys⟩ := toks_of hTX.1
+            obtain ⟨ys, hlook, hys⟩ := toks_of hTX
             obtain ⟨f', rfl⟩ : ∃ f', f = f' + 1 := ⟨f - 1, by omega⟩
-            have hgen := genField_textN e Γ cfg f' (targetUri q) hmixed hisText hwrap
+            have hgen := genField_textN e Γ cfg f' (targetUri mp.qname) hmixed hisText hwrap
               (encodePrimitive_toks hys)
             have hdef : f0.default = some (.list []) := by
               obtain ⟨_, _, hd⟩ := field_of_var hfa MF.fieldNodup (List.mem_of_find?_eq_some hf0)
@@ -493,34 +462,45 @@ theorem main_stepN (ft : Feat) (e : BEnv) (Γ : Ctx) (cfg : SerCfg) (pcfg : Pars
               exact defaultAgrees_list hd
             cases ys with
             | nil =>
-              -- no character data; `xsi:nil` is excluded by `textValOK`
-              have hN : (nl || mp.nillable) = false := by
-                rcases hTX.2 with h | h
-                · exact h
-                · simp [hlook, Val.truthy] at h
-              have hT : bindText e pcfg mp (xsiNilOf (attrPairsT cfg M mp.attributeVars fields xt)) M
+              -- no character data: `xsi:nil` if the class is nillable; the parser leaves the token
+              -- list to the field default
+              have hxn := xsiNilOf_append (attrPairsT cfg M mp.attributeVars fields xt)
+                hAkeys mp.nillable
+              have hT : bindText e pcfg mp
+                  (xsiNilOf (attrPairsT cfg M mp.attributeVars fields xt ++ nilAttr mp.nillable)) M
                   (bindEntries (attrParamsN cfg mp.attributeVars fields) []) none =
                   .ok (false, attrParamsN cfg mp.attributeVars fields, 0) := by
-                simp [bindText, htext, bindEntries, hxnA]
+                rw [hxn]
+                cases hN : mp.nillable <;> simp [bindText, htext, bindEntries, htok]
               have hF := hFgen (attrParamsN cfg mp.attributeVars fields) hPA
                 (Or.inr ⟨hPAtv, by rw [hlook]; exact hdef⟩)
-              have hparse := parseNode_element_N e Γ pcfg mp q (attrPairsT cfg M mp.attributeVars fields xt) M
+              have hparse := parseNode_element_N e Γ pcfg mp q
+                (attrPairsT cfg M mp.attributeVars fields xt ++ nilAttr mp.nillable) M
                 none [] [] {} _ _ false (.obj cls fields) MF.choices MF.wild
-                (fun h => by rw [hxnA] at h; cases h) hK (fun _ h => by cases h) hWs0 hBindA0 hT hF
+                (fun h => by
+                  rw [hxn] at h
+                  cases hN : mp.nillable with
+                  | false => simp [hN] at h
+                  | true => rfl)
+                hK (fun _ h => by cases h) hWs0 (hBindA _) hT hF
               have hsubw := SubW_elem_dataN (M := M) (isDt := isDatatype Γ) q
-                (attrEvsT cfg mp.attributeVars fields xt ++ nilEvs (nl || mp.nillable))
-                (attrPairsT cfg M mp.attributeVars fields xt) (nl || mp.nillable) (tokData []) none rfl
+                (attrEvsT cfg mp.attributeVars fields xt ++ nilEvs mp.nillable)
+                (attrPairsT cfg M mp.attributeVars fields xt) mp.nillable (tokData []) none rfl
                 (hAW _) hAkeys
-              refine ⟨[Ev.start q] ++ (attrEvsT cfg mp.attributeVars fields xt ++ nilEvs (nl || mp.nillable)) ++
+              refine ⟨[Ev.start q] ++ (attrEvsT cfg mp.attributeVars fields xt ++ nilEvs mp.nillable) ++
                   [Ev.data (tokData [])] ++ [Ev.end q],
-                attrPairsT cfg M mp.attributeVars fields xt, none, [], ?_, ?_, ?_, ?_,
-                Or.inl hxnA, fun hgood => ⟨hXT0 _ hgood, ?_⟩⟩
+                attrPairsT cfg M mp.attributeVars fields xt ++ nilAttr mp.nillable, none, [], ?_, ?_, ?_, ?_,
+                ?_, fun hgood => ⟨hXT _ _ hgood, ?_⟩⟩
               · simp [hNVe, hlook, emitOfN, hgen, bind, Except.bind, pure, Except.pure]
-              · simp [hlook, textHasData, hN, nilAttr, textTextN, optText, joinTok, tokStrs, List.intercalate]
-              · simpa [hlook, textHasData, hN, nilAttr, textTextN, optText, joinTok, tokStrs,
+              · simp [hlook, textHasData, textTextN, optText, joinTok, tokStrs, List.intercalate]
+              · simpa [hlook, textHasData, textTextN, optText, joinTok, tokStrs,
                   List.intercalate, treeSax, treesSax, dataSax] using hsubw
               · simp [plain, plainList]
-              · intro xtN; simpa [hlook, textHasData, hN, nilAttr, textTextN, optText, joinTok, tokStrs,
+              · rw [hxn]
+                cases hN : mp.nillable with
+                | false => exact Or.inl (by simp)
+                | true => exact Or.inr ⟨by simp, rfl⟩
+              · intro xtN; simpa [hlook, textHasData, textTextN, optText, joinTok, tokStrs,
                   List.intercalate] using hparse xtN
             | cons a l =>
               have hpv := parseVar_toks e pcfg tv.toVarCore M htok hty hys
@@ -539,10 +519,10 @@ theorem main_stepN (ft : Feat) (e : BEnv) (Γ : Ctx) (cfg : SerCfg) (pcfg : Pars
                 (some (joinTok (a :: l))) [] [] {} _ _ true (.obj cls fields) MF.choices MF.wild
                 (fun h => by rw [hxnA] at h; cases h) hK (fun _ h => by cases h) hWs0 hBindA0 hT hF
               have hsubw := SubW_elem_dataN (M := M) (isDt := isDatatype Γ) q
-                (attrEvsT cfg mp.attributeVars fields xt ++ nilEvs (nl || mp.nillable))
-                (attrPairsT cfg M mp.attributeVars fields xt) (nl || mp.nillable) (tokData (a :: l)) _
+                (attrEvsT cfg mp.attributeVars fields xt ++ nilEvs mp.nillable)
+                (attrPairsT cfg M mp.attributeVars fields xt) mp.nillable (tokData (a :: l)) _
                 (encodeData_toks M hys) (hAW _) hAkeys
-              refine ⟨[Ev.start q] ++ (attrEvsT cfg mp.attributeVars fields xt ++ nilEvs (nl || mp.nillable)) ++
+              refine ⟨[Ev.start q] ++ (attrEvsT cfg mp.attributeVars fields xt ++ nilEvs mp.nillable) ++
                   [Ev.data (tokData (a :: l))] ++ [Ev.end q],
                 attrPairsT cfg M mp.attributeVars fields xt, some (joinTok (a :: l)), [], ?_, ?_, ?_, ?_,
                 Or.inl hxnA, fun hgood => ⟨hXT0 _ hgood, ?_⟩⟩
@@ -558,24 +538,22 @@ theorem main_stepN (ft : Feat) (e : BEnv) (Γ : Ctx) (cfg : SerCfg) (pcfg : Pars
             split at hTX
             · -- the text is `None`
               rename_i hlook
-              have hnc : needContent nl mp = false := by
-                simpa [hlook, textHasData] using hcontent
               simp only [hlook, Bool.or_eq_true] at hTX
               have hxn := xsiNilOf_append (attrPairsT cfg M mp.attributeVars fields xt)
-                hAkeys (nl || mp.nillable)
+                hAkeys mp.nillable
               have hT : bindText e pcfg mp
-                  (xsiNilOf (attrPairsT cfg M mp.attributeVars fields xt ++ nilAttr (nl || mp.nillable))) M
+                  (xsiNilOf (attrPairsT cfg M mp.attributeVars fields xt ++ nilAttr mp.nillable)) M
                   (bindEntries (attrParamsN cfg mp.attributeVars fields) []) none =
-                  .ok ((nl || mp.nillable),
-                    if (nl || mp.nillable) then (attrParamsN cfg mp.attributeVars fields).set tv.name .none
+                  .ok (mp.nillable,
+                    if mp.nillable then (attrParamsN cfg mp.attributeVars fields).set tv.name .none
                     else attrParamsN cfg mp.attributeVars fields, 0) := by
                 rw [hxn]
-                cases hN : (nl || mp.nillable) <;>
-                  simp [bindText, htext, bindEntries, hinit, bind, Except.bind, pure, Except.pure]
+                cases hN : mp.nillable <;>
+                  simp [bindText, htext, bindEntries, hinit, htok', bind, Except.bind, pure, Except.pure]
               have hF : classFactory Γ mp.clazz
-                  (if (nl || mp.nillable) then (attrParamsN cfg mp.attributeVars fields).set tv.name .none
+                  (if mp.nillable then (attrParamsN cfg mp.attributeVars fields).set tv.name .none
                     else attrParamsN cfg mp.attributeVars fields) = .ok (.obj cls fields) := by
-                cases hN : (nl || mp.nillable) with
+                cases hN : mp.nillable with
                 | true =>
                   simp only [if_true]
                   exact hFgen _ (fun var hv => by
@@ -586,37 +564,34 @@ theorem main_stepN (ft : Feat) (e : BEnv) (Γ : Ctx) (cfg : SerCfg) (pcfg : Pars
                   simp only [Bool.false_eq_true, if_false]
                   have hfd : fdNone ci tv.name = true := by
                     rcases hTX with h | h
-                    · simp only [Bool.or_eq_false_iff] at hN
-                      rcases h with h | h
-                      · rw [hN.1] at h; cases h
-                      · rw [hN.2] at h; cases h
+                    · rw [hN] at h; cases h
                     · exact h
                   obtain ⟨f', hf', hdn⟩ := fdNone_iff.1 hfd
                   rw [hf0] at hf'; cases hf'
                   exact hFgen _ hPA (Or.inr ⟨hPAtv, by rw [hlook, hdn]⟩)
               have hparse := parseNode_element_N e Γ pcfg mp q
-                (attrPairsT cfg M mp.attributeVars fields xt ++ nilAttr (nl || mp.nillable)) M none [] [] {} _ _ _
+                (attrPairsT cfg M mp.attributeVars fields xt ++ nilAttr mp.nillable) M none [] [] {} _ _ _
                 (.obj cls fields) MF.choices MF.wild
                 (fun h => by
                   rw [hxn] at h
-                  cases hN : (nl || mp.nillable) with
+                  cases hN : mp.nillable with
                   | false => simp [hN] at h
-                  | true => exact (hneed hnc hN).1)
-                hK (fun _ h => by cases h) hWs0 (hBindA _ (fun hN => (hneed hnc hN).2)) hT hF
+                  | true => rfl)
+                hK (fun _ h => by cases h) hWs0 (hBindA _) hT hF
               have hsubw := SubW_elemN (M := M) (isDt := isDatatype Γ) q
-                (attrEvsT cfg mp.attributeVars fields xt ++ nilEvs (nl || mp.nillable))
-                (attrPairsT cfg M mp.attributeVars fields xt) (nl || mp.nillable) [] []
+                (attrEvsT cfg mp.attributeVars fields xt ++ nilEvs mp.nillable)
+                (attrPairsT cfg M mp.attributeVars fields xt) mp.nillable [] []
                 (hAW _) hAkeys (BodyW_nil M _)
-              refine ⟨[Ev.start q] ++ (attrEvsT cfg mp.attributeVars fields xt ++ nilEvs (nl || mp.nillable)) ++
+              refine ⟨[Ev.start q] ++ (attrEvsT cfg mp.attributeVars fields xt ++ nilEvs mp.nillable) ++
                   [] ++ [Ev.end q],
-                attrPairsT cfg M mp.attributeVars fields xt ++ nilAttr (nl || mp.nillable), none, [], ?_, ?_, ?_,
+                attrPairsT cfg M mp.attributeVars fields xt ++ nilAttr mp.nillable, none, [], ?_, ?_, ?_,
                 ?_, ?_, fun hgood => ⟨hXT _ _ hgood, ?_⟩⟩
               · simp [hNVe, hlook, emitOfN, hnillable, bind, Except.bind, pure, Except.pure]
               · simp [hlook, textHasData, textTextN]
               · simpa [hlook, textHasData, textTextN, treeSax, treesSax] using hsubw
               · simp [plain, plainList]
               · rw [hxn]
-                cases hN : (nl || mp.nillable) with
+                cases hN : mp.nillable with
                 | false => exact Or.inl (by simp)
                 | true => exact Or.inr ⟨by simp, rfl⟩
               · intro xtN; simpa [hlook, textHasData, textTextN] using hparse xtN
@@ -625,7 +600,7 @@ theorem main_stepN (ft : Feat) (e : BEnv) (Γ : Ctx) (cfg : SerCfg) (pcfg : Pars
               simp only [Bool.and_eq_true, Bool.or_eq_true, decide_eq_true_eq] at hTX
               obtain ⟨hpt', hemp⟩ := hTX
               obtain ⟨f', rfl⟩ : ∃ f', f = f' + 1 := ⟨f - 1, by omega⟩
-              have hgen := genField_textN e Γ cfg f' (targetUri q) hmixed hisText hwrap
+              have hgen := genField_textN e Γ cfg f' (targetUri mp.qname) hmixed hisText hwrap
                 (encodePrimitive_prim hpt')
               have hparse : ∀ xtN, parseNode e Γ pcfg
                   (.element mp (attrPairsT cfg M mp.attributeVars fields xt) M false xtN
@@ -663,10 +638,10 @@ theorem main_stepN (ft : Feat) (e : BEnv) (Γ : Ctx) (cfg : SerCfg) (pcfg : Pars
                     MF.choices MF.wild (fun h => by rw [hxnA] at h; cases h) hK (fun _ h => by cases h)
                     hWs0 hBindA0 hT hF xtN
               have hsubw := SubW_elem_dataN (M := M) (isDt := isDatatype Γ) q
-                (attrEvsT cfg mp.attributeVars fields xt ++ nilEvs (nl || mp.nillable))
-                (attrPairsT cfg M mp.attributeVars fields xt) (nl || mp.nillable) (.prim (.str (serPrim p)))
+                (attrEvsT cfg mp.attributeVars fields xt ++ nilEvs mp.nillable)
+                (attrPairsT cfg M mp.attributeVars fields xt) mp.nillable (.prim (.str (serPrim p)))
                 (some (serPrim p)) rfl (hAW _) hAkeys
-              refine ⟨[Ev.start q] ++ (attrEvsT cfg mp.attributeVars fields xt ++ nilEvs (nl || mp.nillable)) ++
+              refine ⟨[Ev.start q] ++ (attrEvsT cfg mp.attributeVars fields xt ++ nilEvs mp.nillable) ++
                   [Ev.data (.prim (.str (serPrim p)))] ++ [Ev.end q],
                 attrPairsT cfg M mp.attributeVars fields xt, optText (serPrim p), [], ?_, ?_, ?_, ?_,
                 Or.inl hxnA, fun hgood => ⟨hXT0 _ hgood, ?_⟩⟩
@@ -678,8 +653,8 @@ theorem main_stepN (ft : Feat) (e : BEnv) (Γ : Ctx) (cfg : SerCfg) (pcfg : Pars
             · cases hTX
     | none =>
       dsimp only
-      simp only [htext, Bool.and_eq_true, List.all_eq_true] at hbody
-      obtain ⟨hbodyE, hcontent⟩ := hbody
+      simp only [htext, List.all_eq_true] at hbody
+      have hbodyE := hbody
       have hEall : ∀ var ∈ mp.elementVars, FN.elemVarOK ft Γ mp ci var = true := by
         simpa [htext] using MF.body
       have hEF := fun var hv => elemFactsN_of MF hv (hEall var hv)
@@ -689,7 +664,7 @@ theorem main_stepN (ft : Feat) (e : BEnv) (Γ : Ctx) (cfg : SerCfg) (pcfg : Pars
       obtain ⟨f', rfl⟩ : ∃ f', f = f' + 1 := ⟨f - 1, by omega⟩
       -- per var: generator, writer and parser of its items
       have hB : ∀ var ∈ mp.elementVars,
-          VarBundleG e Γ cfg pcfg M mp ci (targetUri q) (itemRec Γ cfg M n (targetUri mp.qname)) f' var
+          VarBundleG e Γ cfg pcfg M mp ci (targetUri mp.qname) (itemRec Γ cfg M n (targetUri mp.qname)) f' var
             (look fields var.name) := by
         intro var hv
         obtain ⟨hf, hk, _, _, hinitV⟩ := hEF var hv
@@ -699,12 +674,12 @@ theorem main_stepN (ft : Feat) (e : BEnv) (Γ : Ctx) (cfg : SerCfg) (pcfg : Pars
         | prim t hc hp ht hd =>
           exact (prim_bundle e Γ cfg pcfg M _ _ hf MF.wild hc hp ht hd hinitV _ (hbodyE var hv) f'
             (by omega)).toG
-        | cls c' m' hc htk ht hd hm hns' =>
+        | cls c' m' hc htk ht hd hm =>
           have hinitC : var.init = true := by
             rcases hinitV with h | h
             · exact h
             · simp [FN.fixedOK, hc] at h
-          exact cls_bundle ft e Γ cfg pcfg M n hΓ IH hf hc htk ht hd hm hns' q hns hv hinitC (hbodyE var hv) f'
+          exact cls_bundle ft e Γ cfg pcfg M n hΓ IH hf hc htk ht hd hm hinitC (hbodyE var hv) f'
             (by omega)
       -- `next_value`
       have hVS : ∀ var ∈ mp.elementVars, VarSeq fields var := fun var hv =>
@@ -725,7 +700,7 @@ theorem main_stepN (ft : Feat) (e : BEnv) (Γ : Ctx) (cfg : SerCfg) (pcfg : Pars
         · rw [if_pos ha]; exact Or.inr ⟨rfl, by rw [← harr ha]; exact ha⟩
         · rw [if_neg ha]; exact Or.inl rfl
       -- the generator
-      obtain ⟨body, hbodyEq, hBodyW, hbodyNil⟩ := body_genN e Γ cfg M (targetUri q)
+      obtain ⟨body, hbodyEq, hBodyW, hbodyNil⟩ := body_genN e Γ cfg M (targetUri mp.qname)
         (itemRec Γ cfg M n (targetUri mp.qname)) (m := mp) R f'
         (fun c hc => by
           obtain ⟨hv, hs, hem, harr⟩ := hspec.1 c hc
@@ -752,7 +727,7 @@ theorem main_stepN (ft : Feat) (e : BEnv) (Γ : Ctx) (cfg : SerCfg) (pcfg : Pars
         exact (hEF _ hv).1
       -- the parser side of the items, once the prefix map serves the `xsi:type`s of the whole element
       have hitemP : TypesGood e M ([Ev.start q] ++
-            (attrEvsT cfg mp.attributeVars fields xt ++ nilEvs (nl || mp.nillable)) ++ body.flatten ++ [Ev.end q]) →
+            (attrEvsT cfg mp.attributeVars fields xt ++ nilEvs mp.nillable) ++ body.flatten ++ [Ev.end q]) →
           ∀ c ∈ R, ∀ en ∈ chunkEntries c,
             ItemP e Γ pcfg M mp en.1 en.2 (itemTreeNN M (itemRec Γ cfg M n (targetUri mp.qname)) en.1 en.2) := by
         intro hgood c hc en hen
@@ -763,7 +738,7 @@ theorem main_stepN (ft : Feat) (e : BEnv) (Γ : Ctx) (cfg : SerCfg) (pcfg : Pars
         apply hI
         apply hgood.mono
         intro ev hev
-        have := item_evs_mem_body e Γ cfg (targetUri q) R f' hbodyEq hc (hEF _ hv).1 hs hem hy hg ev hev
+        have := item_evs_mem_body e Γ cfg (targetUri mp.qname) R f' hbodyEq hc (hEF _ hv).1 hs hem hy hg ev hev
         simp [this]
       have hplainK : plainList M (R.flatMap fun c =>
           chunkTrees M (itemTreeNN M (itemRec Γ cfg M n (targetUri mp.qname)) c.1) c.1 c.2) = true := by
@@ -811,75 +786,39 @@ theorem main_stepN (ft : Feat) (e : BEnv) (Γ : Ctx) (cfg : SerCfg) (pcfg : Pars
           (bindEntries (attrParamsN cfg mp.attributeVars fields) (R.flatMap chunkEntries)) none =
           .ok (false, bindEntries (attrParamsN cfg mp.attributeVars fields) (R.flatMap chunkEntries), 0) := by
         intro xn; simp [bindText, htext]
-      -- `xsi:nil` is kept only without content, and then the class is nillable
-      have hnilkept : (R.flatMap fun c =>
-            chunkTrees M (itemTreeNN M (itemRec Γ cfg M n (targetUri mp.qname)) c.1) c.1 c.2) = [] →
-          (nl || mp.nillable) = true → mp.nillable = true ∧ mp.anyAttributes = [] := by
-        intro hk hN
-        simp only [Bool.or_eq_true, Bool.not_eq_true', List.any_eq_true] at hcontent
-        rcases hcontent with h | ⟨var, hv, hem⟩
-        · exact hneed h hN
-        · exfalso
-          have hne := emitsChild_items (hB var hv).shape hem
-          have hsp := hspec.2 var.name
-          rw [find?_name_of_mem hEnames hv] at hsp
-          -- some chunk of `var` has an item, hence a tree
-          cases hfl : (R.filter (fun c => c.1.name = var.name)).flatMap (fun c => itemsN c.1 c.2) with
-          | nil => rw [hfl] at hsp; exact hne hsp.symm
-          | cons y ys =>
-            have hy : y ∈ (R.filter (fun c => c.1.name = var.name)).flatMap (fun c => itemsN c.1 c.2) := by
-              rw [hfl]; simp
-            obtain ⟨c, hc, hyc⟩ := List.mem_flatMap.1 hy
-            have hcR := (List.mem_filter.1 hc).1
-            have htrees : chunkTrees M (itemTreeNN M (itemRec Γ cfg M n (targetUri mp.qname)) c.1) c.1 c.2 ≠ [] := by
-              simp only [chunkTrees]
-              cases c.1.wrapperQName with
-              | some w => simp
-              | none =>
-                simp only [ne_eq, List.map_eq_nil_iff]
-                intro h0; rw [h0] at hyc; cases hyc
-            apply htrees
-            have hsub : ∀ t ∈ chunkTrees M (itemTreeNN M (itemRec Γ cfg M n (targetUri mp.qname)) c.1) c.1 c.2,
-                t ∈ (R.flatMap fun c =>
-                  chunkTrees M (itemTreeNN M (itemRec Γ cfg M n (targetUri mp.qname)) c.1) c.1 c.2) :=
-              fun t ht => List.mem_flatMap.2 ⟨c, hcR, ht⟩
-            rw [hk] at hsub
-            cases hct : chunkTrees M (itemTreeNN M (itemRec Γ cfg M n (targetUri mp.qname)) c.1) c.1 c.2 with
-            | nil => rfl
-            | cons t ts => exact absurd (hsub t (by rw [hct]; simp)) (by simp)
       simp only [kidsN, hvalsN]
       generalize hkids : (R.flatMap fun c =>
           chunkTrees M (itemTreeNN M (itemRec Γ cfg M n (targetUri mp.qname)) c.1) c.1 c.2) = kids
-        at hBodyW hbodyNil hempty hplainK hK' hnilkept
+        at hBodyW hbodyNil hempty hplainK hK'
       have hsubw := SubW_elemN (M := M) (isDt := isDatatype Γ) q
-        (attrEvsT cfg mp.attributeVars fields xt ++ nilEvs (nl || mp.nillable))
-        (attrPairsT cfg M mp.attributeVars fields xt) (nl || mp.nillable) body.flatten _
+        (attrEvsT cfg mp.attributeVars fields xt ++ nilEvs mp.nillable)
+        (attrPairsT cfg M mp.attributeVars fields xt) mp.nillable body.flatten _
         (hAW _) hAkeys hBodyW
       rw [hempty] at hsubw
       cases hke : kids.isEmpty with
       | true =>
         have hk0 : kids = [] := by simpa using hke
         have hxn := xsiNilOf_append (attrPairsT cfg M mp.attributeVars fields xt)
-          hAkeys (nl || mp.nillable)
+          hAkeys mp.nillable
         have hparse := fun hgood => parseNode_element_N e Γ pcfg mp q
-          (attrPairsT cfg M mp.attributeVars fields xt ++ nilAttr (nl || mp.nillable)) M none kids _ _ _ _
+          (attrPairsT cfg M mp.attributeVars fields xt ++ nilAttr mp.nillable) M none kids _ _ _ _
           false (.obj cls fields) MF.choices MF.wild
           (fun h => by
             rw [hxn] at h
-            cases hN : (nl || mp.nillable) with
+            cases hN : mp.nillable with
             | false => simp [hN] at h
-            | true => exact (hnilkept hk0 hN).1)
-          (hK' hgood) hentry hWs (hBindA _ (fun hN => (hnilkept hk0 hN).2)) (hT _) hF
-        refine ⟨[Ev.start q] ++ (attrEvsT cfg mp.attributeVars fields xt ++ nilEvs (nl || mp.nillable)) ++
+            | true => rfl)
+          (hK' hgood) hentry hWs (hBindA _) (hT _) hF
+        refine ⟨[Ev.start q] ++ (attrEvsT cfg mp.attributeVars fields xt ++ nilEvs mp.nillable) ++
             body.flatten ++ [Ev.end q],
-          attrPairsT cfg M mp.attributeVars fields xt ++ nilAttr (nl || mp.nillable), none, kids, ?_,
+          attrPairsT cfg M mp.attributeVars fields xt ++ nilAttr mp.nillable, none, kids, ?_,
           by simp, ?_, ?_,
           ?_, fun hgood => ⟨hXT _ _ hgood, ?_⟩⟩
         · simp only [hNVe, hbodyEq, bind, Except.bind, pure, Except.pure]
         · simpa [hke, treeSax] using hsubw
         · simp [hke, plain, hplainK]
         · rw [hxn]
-          cases hN : (nl || mp.nillable) with
+          cases hN : mp.nillable with
           | false => exact Or.inl (by simp)
           | true => exact Or.inr ⟨by simp, rfl⟩
         · intro xtN; simpa [hke] using hparse hgood xtN
@@ -891,8 +830,8 @@ theorem main_stepN (ft : Feat) (e : BEnv) (Γ : Ctx) (cfg : SerCfg) (pcfg : Pars
           (attrPairsT cfg M mp.attributeVars fields xt) M none kids _ _ _ _
           false (.obj cls fields) MF.choices MF.wild
           (fun h => by rw [hxn] at h; cases h)
-          (hK' hgood) hentry hWs (by simpa [nilAttr] using hBindA false (fun h => by cases h)) (hT _) hF
-        refine ⟨[Ev.start q] ++ (attrEvsT cfg mp.attributeVars fields xt ++ nilEvs (nl || mp.nillable)) ++
+          (hK' hgood) hentry hWs (by simpa [nilAttr] using hBindA false) (hT _) hF
+        refine ⟨[Ev.start q] ++ (attrEvsT cfg mp.attributeVars fields xt ++ nilEvs mp.nillable) ++
             body.flatten ++ [Ev.end q], attrPairsT cfg M mp.attributeVars fields xt, none, kids, ?_,
           by simp, ?_, ?_,
           Or.inl hxn, fun hgood => ⟨hXT0 _ hgood, ?_⟩⟩
@@ -906,7 +845,7 @@ theorem main_stepN (ft : Feat) (e : BEnv) (Γ : Ctx) (cfg : SerCfg) (pcfg : Pars
 theorem main_allN (ft : Feat) (e : BEnv) (Γ : Ctx) (cfg : SerCfg) (pcfg : ParserConfig) (M : NsMap)
     (hΓ : ctxOK ft Γ = true) : ∀ n, MainStmtN ft e Γ cfg pcfg M n
   | 0 => by
-    intro v c pnsG pnsP oq q fuel mg mp nl xt _ _ _ _ _ hval _
+    intro v c pnsP oq q fuel mp xt _ _ hval _
     simp [FN.valObjN] at hval
   | n + 1 => main_stepN ft e Γ cfg pcfg M hΓ n (main_allN ft e Γ cfg pcfg M hΓ n)
 
@@ -932,15 +871,15 @@ theorem roundtrip_FN (ft : Feat) (e : BEnv) (Γ : Ctx) (cfg : SerCfg) (pcfg : Pa
       | some m => exact ⟨m, by simp [metaOf, hf, hmf]⟩
   have hgenEq : generate e Γ cfg (.obj c fields) =
       genObj e Γ cfg (4 * (Val.obj c fields).size + 8) (.obj c fields) none none false none := rfl
-  have key := fun M => main_allN ft e Γ cfg pcfg M hΓ (n + 1) (.obj c fields) c none none none m.qname
-    (4 * (Val.obj c fields).size + 8) m m false none hm hm rfl rfl (nsAgreeN_self ft Γ m) hv (by omega)
+  have key := fun M => main_allN ft e Γ cfg pcfg M hΓ (n + 1) (.obj c fields) c none none m.qname
+    (4 * (Val.obj c fields).size + 8) m none hm rfl hv (by omega)
   obtain ⟨evs, _, _, _, hgen0, _⟩ := key []
   obtain ⟨evs', a, text, kids, hgen, htree, hsub, hplain, _, hP⟩ :=
     key (prefixMap (collectUris evs))
   have hevs : evs' = evs := by rw [hgen0] at hgen; cases hgen; rfl
   subst hevs
   obtain ⟨hxt, hparse⟩ := hP (typesGood_prefixMap e evs')
-  refine ⟨evs', treeNN Γ cfg (prefixMap (collectUris evs')) (n + 1) none false none m.qname (.obj c fields),
+  refine ⟨evs', treeNN Γ cfg (prefixMap (collectUris evs')) (n + 1) none none m.qname (.obj c fields),
     by rw [hgenEq]; exact hgen, ?_, ?_⟩
   · have hfold := hsub.2 {} rfl (fun _ => rfl)
     simp only [eventsTree, eventsSax, hfold, bind, Except.bind, pure, Except.pure, afterW,
